@@ -13,6 +13,7 @@ static const unsigned long bitsrc_mask[]=
  0x01ffffff,0x03ffffff,0x07ffffff,0x0fffffff,0x1fffffff,
  0x3fffffff,0x7fffffff,0xffffffff };
 static unsigned char bitsrc_dummy[8];
+static int bitsrc_calls;   /* ordinal of the next successful oggpack_read, for harness-stated size bounds (BITSRC_HOOK) */
 void oggpack_readinit(oggpack_buffer *b,unsigned char *buf,int bytes){
   memset(b,0,sizeof(*b)); b->buffer=b->ptr=buf?buf:bitsrc_dummy; b->storage=bytes;
 }
@@ -39,6 +40,10 @@ long oggpack_read(oggpack_buffer *b,int bits){
     if(!bitsrc_avail(b,bits)) goto err;
     if(b->endbyte >= b->storage-4 && !bits) return 0;
     long ret=(long)(ND_ulong()&m);
+#ifdef BITSRC_HOOK
+    BITSRC_HOOK(bitsrc_calls,ret);
+#endif
+    bitsrc_calls++;
     b->endbyte+=bits/8; b->endbit=bits&7;
     return ret; }
  err:
